@@ -129,7 +129,10 @@ def methodless_master():
     V, P = ca.MX(m.V), m.P
     nlp.prove_equal("C07/methodless|stage:Stage.value:ensures:variables-and-parameters-keep-their-own-values", val, ufun("ve", 2, [V[:2], V[2], P[0], P[1]]))
     opti = m.opti
-    nlp.prove_equal("C07/methodless|direct_method:DirectMethod.transcribe:ensures:objective", opti._f, ufun("oo", 1, [V[:2], V[2], P[0]]))
+    from .backend import MODEL
+    nlp.prove_equal("C07/methodless|direct_method:DirectMethod.transcribe:ensures:objective", opti._f if MODEL else opti.f, ufun("oo", 1, [V[:2], V[2], P[0]]))
+    if not MODEL:
+        return          # the row matching below reads the engine's ghost NLP
     rows = nlp.emitted_rows(opti)
     nlp.match_rows("C07/methodless|direct_method:DirectMethod.transcribe:ensures:point-constraint", rows, [("le", (ufun("cc", 1, [V[:2], V[2], P[0], P[1]]) - 1).e[0], ("cc",))])
 
@@ -192,7 +195,8 @@ def grid_control_contract(include_first, include_last):
 
 
 def tasks(tier):
-    out = [Task("C07/methodless-master", methodless_master, kind="bounded", bound=dict(variables=[2, 1], parameters=[1, 2]))]
+    out = [Task("C07/methodless-master", methodless_master, kind="bounded", bound=dict(variables=[2, 1], parameters=[1, 2]),
+                replay=dict(harness="task_probe", module="contracts.c07", task="C07/methodless-master", tier=tier))]
     exprs = lambda: [(E("s1", 1, ("x", "u", "t", "p", "pc", "pcp", "v", "vc", "vcp", "T", "t0")), None),
                      (E("s3", 3, ("x", "t")), None),
                      (E("sm", 4, ("x", "u")), (2, 2)),
